@@ -1342,7 +1342,7 @@ def check(tier, seed):
         'the model has one "session down" state: IDLE, ACTIVE, CONNECT, OPENSENT and OPENCONFIRM are required to behave alike (checked on every history)',
         '"still-valid API-announced routes" = API routes on prefixes that neither the old nor the new file of that neighbor names; a neighbor whose name (peer address, AS numbers, router-id) changes is a removed plus a new neighbor',
     ]
-    common.standard_build(run, [])
+    common.standard_build(run, ['T13'])
     rng = random.Random(seed)
     wd = common.work_dir()
 
